@@ -333,6 +333,38 @@ def task(t):
     return stats
 
 
+# -------------------------------------------- bounded-exhaustive single preemption (thorough tier)
+SWEEP_WORKLOADS = {
+    # name: (calls, options, number of pause points enumerated for thread 0)
+    "first-use-same": ([[0, 0, "llvm", 0], [0, 1, "llvm", 0]], {"fresh_process": True}, 140),
+    "first-use-different": ([[10, 0, "llvm", 0], [3, 1, "llvm", 0]], {"fresh_process": True}, 140),
+    # (no second hit on the same kernel: it would refresh the entry that the miss is supposed to evict)
+    "full-cache-hit-vs-miss": ([[0, 0, "llvm", 0], [3, 1, "llvm", 0]], {"warm": True, "full_cache": True}, 70),
+    "warm-same-kernel": ([[4, 0, "llvm", 0], [4, 1, "llvm", 0]], {"warm": True}, 70),
+}
+
+
+def pause_sweep_task(t):
+    """Thread 0 is suspended after its k-th line inside tensora/compile/* until the other threads are done, for EVERY k in
+    the chunk: the check-then-act windows of the kernel cache, of one-time initialisation and of per-call state are each
+    visited once, instead of being hoped for."""
+    name, ks = t
+    calls, opts, _n = SWEEP_WORKLOADS[name]
+    stats = Stats()
+    w = Worker(module="harness.native.concchild")
+    try:
+        for k in ks:
+            case = {"mode": "controlled", "calls": calls, "choices": list(range(len(calls))) * 10, "schedule": "pause",
+                    "pause": [0, k], "warm": opts.get("warm", False), "full_cache": opts.get("full_cache", False),
+                    "fresh_process": opts.get("fresh_process", False), "sweep": name}
+            res = check(case, w)
+            res["labels"] = sorted(set(res["labels"]) | {f"pause_sweep:{name}"})
+            stats.add(case, res)
+    finally:
+        w.close()
+    return stats
+
+
 def replay(payload):
     w = Worker(module="harness.native.concchild")
     try:
@@ -352,6 +384,16 @@ def run(chk):
     ng = 64 if quick else 1600
     tasks += [("generate", chk.tier, chk.seed, s, ng // 4) for s in range(4)]
     chk.absorb(run_tasks(task, tasks), kind="workload")
+    if not quick:
+        sweep = []
+        for name, (_c, _o, n) in SWEEP_WORKLOADS.items():
+            ks = list(range(n))
+            sweep += [(name, ks[i : i + 10]) for i in range(0, n, 10)]
+        chk.absorb(run_tasks(pause_sweep_task, sweep), kind="workload")
+        chk.coverage_extra["exhaustive_subdomain"] = (
+            "single preemption of thread 0 at each of its first 70-140 lines inside tensora/compile/* for four fixed workloads "
+            "(first use in a fresh process: same / different problems; hit on the oldest entry of a full kernel cache against "
+            "a miss; two calls of one cached kernel)")
 
 
 def health(cov):
